@@ -128,6 +128,49 @@ def gen_company(r, gid):
     return rules, bufs
 
 
+WILD_PREFIXES = ["mal_fam", "ab", "r_1x", "Zq9", "k"]
+
+
+def gen_wild(r, g, lines, plan, werr, metas):
+    """rule-set wildcards: rules `<pfx>…`, a rule using `of (<pfx>*)`, then a LATE rule in the same namespace whose identifier is a proper
+    prefix of / equal to / an extension of / unrelated to the wildcard prefix. Documented outcome: the late rule is rejected
+    (ERROR_IDENTIFIER_MATCHES_WILDCARD) iff its identifier STARTS WITH the prefix; otherwise it compiles and its result — and the result of the
+    rule using the wildcard — are the same alone and in this company. In another namespace the late rule always compiles."""
+    pfx = r.choice(WILD_PREFIXES)
+    members = ["%s%s" % (pfx, suf) for suf in r.sample(["_a", "b", "_c1", "0", "Z"], r.randint(1, 3))]
+    kind = r.choice(["proper_prefix", "proper_prefix", "equal", "extension", "unrelated", "last_char_differs", "other_namespace"])
+    if kind == "proper_prefix" and len(pfx) < 2:
+        kind = "extension"
+    late = {"proper_prefix": pfx[:r.randint(1, max(1, len(pfx) - 1))], "equal": pfx, "extension": pfx + r.choice(["z9", "_", "0a", members[0][len(pfx):] + "x"]),
+            "unrelated": "q_" + pfx, "last_char_differs": pfx[:-1] + ("y" if pfx[-1] != "y" else "w"), "other_namespace": pfx + "_late"}[kind]
+    if late in members or late == "user":
+        late = late + "Q" if kind != "proper_prefix" else late
+    quant = r.choice(["any", "all", "1", "none"])
+    texts = ['rule %s { strings: $a = "%s" condition: $a }' % (m, r.choice(["efgh", "abcd", "zzzz"])) for m in members]
+    texts.append('rule user { strings: $u = "cdef" condition: %s of (%s*) or #u > 5 }' % (quant, pfx))
+    texts.append('rule %s { strings: $s0 = "abcd" condition: $s0 }' % late)
+    names = ["default:%s" % m for m in members] + ["default:user", ("nsb:%s" if kind == "other_namespace" else "default:%s") % late]
+    buf = r.choice([b"..abcdefgh..abcd", b"efgh", b"xxabcdxx", b""])
+    metas[g] = dict(rules=["default: " + t for t in texts], bufs=[hx(buf)], names=names, wildcard=dict(prefix=pfx, late=late, kind=kind))
+    n = len(texts)
+    head = "ns=default src=%s" % hx("\n".join(texts[:-1]))
+    full, alone, nolate = "w%d_full" % g, "w%d_alone" % g, "w%d_nolate" % g
+    late_ns = "nsb" if kind == "other_namespace" else "default"
+    if kind == "other_namespace":
+        lines.append("%s %s ns=nsb src=%s nsm=1 buf=%s" % (full, head, hx(texts[-1]), hx(buf)))
+    else:
+        lines.append("%s ns=default src=%s nsm=1 buf=%s" % (full, hx("\n".join(texts)), hx(buf)))
+    lines.append("%s ns=%s src=%s nsm=1 buf=%s" % (alone, late_ns, hx(texts[-1]), hx(buf)))
+    lines.append("%s %s nsm=1 buf=%s" % (nolate, head, hx(buf)))
+    rejected = kind != "other_namespace" and late.startswith(pfx)
+    if rejected:
+        werr.append((g, full, alone, kind))
+    else:
+        plan.append((g, n - 1, "wild_late_" + kind, alone, full))          # the late rule: alone vs in the company
+        for i in range(n - 1):
+            plan.append((g, i, "wild_company", nolate, full))                 # the wildcard rule and its members: with vs without the late rule
+
+
 def emit(rules, order, r=None, split=False):
     """h_scan tokens compiling the rules `order` (indices) in that order: one add_string per run of equal namespace
     (or, with split, further cut at random rule boundaries)"""
@@ -241,8 +284,12 @@ def run(tier, replay=None):
                 lines.append("%s %s ns=%s src=%s nsm=1 buf=%s" % (lid, " ".join(incs), NSNAMES[rules[0]["ns"]], hx(main), hx(buf)))
                 for i in allidx:
                     plan.append((g, i, "include", lid, ref))
+    werr = []
+    for j in range(14 if tier == "quick" else 600):
+        gen_wild(core.rng("C05-wild-%d" % j), 100000 + j, lines, plan, werr, metas)
     if replay:
         lines = replay["lines"]; plan = [tuple(p) for p in replay["plan"]]; metas = {int(k): v for k, v in replay["metas"].items()}
+        werr = [tuple(x) for x in replay.get("werr", [])]
     outs, rc, err = core.run_parallel([b["h_scan"]], lines)
     om = {l.split(" ", 1)[0]: l for l in outs}
     found = False
@@ -294,6 +341,25 @@ def run(tier, replay=None):
                                                    "lines": [lm[lid], lm[ref]], "plan": [[g, i, variant, lid, ref]], "metas": {g: metas[g]}})
             nviol += 1
             found = True
+    # rule-set wildcards: a later identifier that STARTS WITH a used wildcard prefix must be rejected (and compile alone); nothing else may be
+    whist = {}
+    for g, full, alone, kind in werr:
+        a, c = om.get(alone), om.get(full)
+        if a is None or c is None:
+            continue
+        whist[kind] = whist.get(kind, 0) + 1
+        why = []
+        if a.split()[1] != "OK":
+            why.append("the late rule alone does not compile: %s" % " ".join(a.split()[1:3]))
+        if c.split()[1:3] != ["CERR", "IDENTIFIER_MATCHES_WILDCARD"]:
+            why.append("in the company the late rule (identifier starts with the wildcard prefix) gives %s instead of ERROR_IDENTIFIER_MATCHES_WILDCARD" % " ".join(c.split()[1:3]))
+        if why and nviol < 10:
+            chk.violation("wild_%d.json" % nviol, {"kind": "rule-set wildcard: outcome of a later rule differs from the documented one", "why": why, "group": g,
+                                                   "wildcard": metas[g]["wildcard"], "harness": "h_scan", "lines": [lm[full], lm[alone]], "plan": [],
+                                                   "werr": [[g, full, alone, kind]], "metas": {g: metas[g]}})
+            nviol += 1
+            found = True
+    chk.cov["wildcard_rule_sets"] = {"rejected_as_documented": whist, "accepted_and_compared": {k: v for k, v in hist.items() if k.startswith("wild")}}
     chk.cov.update({"evaluations": len(lines), "distinct_nontrivial": len(nontriv), "comparisons": len(plan), "comparisons_by_variant": hist,
                     "rule": "companies of 2-9 rules over colliding strings (text/hex/regex, modifiers), 3 planted buffers each; per rule: alone(+deps) vs company, prefix, "
                             "dependency-respecting permutation, source split over add_string calls, nested includes; non-trivial = the rule's strings have matches in the company run",
